@@ -9,7 +9,9 @@
      L6 opaque_base_rejects_relative
      L7 relative_keeps_scheme
 
-   "cleaned" = Cleaning.clean: leading/trailing C0-or-space bytes and all tab/newline bytes removed. *)
+   "cleaned" = Cleaning.clean_sv (c_acceptInvalid c): leading/trailing C0-or-space bytes and all tab/newline
+   bytes removed (after reading invalid UTF-8 as U+FFFD when something is removed and the parser does not
+   accept invalid code points).  For c_acceptInvalid c = false this is Cleaning.clean. *)
 From Verif Require Import Lib.Base Lib.Utf8 Lib.GoStr Model.Cfg Gen.Tables Gen.Options Model.Sets Model.Percent Model.Url Model.Host Model.Machine Model.Api.
 From Verif Require Import Proofs.Utf8Proofs Proofs.RecordInv Proofs.Cleaning Proofs.PhaseLemmas Proofs.SchemeKept.
 From Coq Require Import Lia ZifyBool ZifyN ZifyNat.
@@ -77,13 +79,16 @@ Section Resolve.
   Hypothesis Hfail : c_fail c = false.
 
   Notation UP := (UrlParse idna_raw c).
+  (* the cleaned reference as this parser sees it: Cleaning.clean_sv with the parser's acceptInvalidCodepoints
+     flag; for c_acceptInvalid c = false this is Cleaning.clean, and the two agree on valid UTF-8 *)
+  Notation cl := (clean_sv (c_acceptInvalid c)).
 
   (* the record with which the parser starts on the cleaned input i *)
   Definition m0 (i : str) : mstate := mk SchemeStart (-1) false [] false false false (empty_url i).
 
   Lemma UrlParse_run b ref :
-    UP b ref = to_pres (run idna_raw c (decode (clean ref)) (Some (clone b)) None
-                            (fuel_of (length (decode (clean ref)))) (m0 (clean ref))).
+    UP b ref = to_pres (run idna_raw c (decode (cl ref)) (Some (clone b)) None
+                            (fuel_of (length (decode (cl ref)))) (m0 (cl ref))).
   Proof. unfold UrlParse. rewrite (BasicParser_factors idna_raw c Hrep Hfail). reflexivity. Qed.
 
   (* the record after the base's components were copied (states NoScheme / Relative / File),
@@ -149,7 +154,7 @@ Section Resolve.
   (* L3                                                                                         *)
   (* ---------------------------------------------------------------------------------------- *)
   Theorem fragment_only_ref_exact b ref f :
-    clean ref = 35 :: f ->
+    cl ref = 35 :: f ->
     UP b ref = PUrl (set_fragment (resolved_copy (35 :: f) b) (Some (enc_with c (fragset c b) (runes f)))).
   Proof.
     intros Hc. rewrite UrlParse_run, Hc.
@@ -181,7 +186,7 @@ Section Resolve.
 
   (* a "#f" reference changes only the fragment (opaque and non-opaque bases) *)
   Theorem fragment_only_ref b ref f :
-    wfb b -> clean ref = 35 :: f ->
+    wfb b -> cl ref = 35 :: f ->
     exists u', UP b ref = PUrl u' /\ keeps_base u' b /\ u_query u' = u_query b /\
                u_fragment u' = Some (enc_with c (fragset c b) (runes f)).
   Proof.
@@ -201,36 +206,36 @@ Section Resolve.
 
   (* the run of a reference without scheme prefix, from the state NoScheme on, with fuel to spare *)
   Lemma no_prefix_run b ref :
-    has_scheme_prefix (runes (clean ref)) = false ->
-    exists g, (length (decode (clean ref)) + 2 <= g)%nat /\
-      UP b ref = to_pres (run idna_raw c (decode (clean ref)) (Some (clone b)) None (Datatypes.S g)
-                            (mk NoScheme (-1) false [] false false false (empty_url (clean ref)))).
+    has_scheme_prefix (runes (cl ref)) = false ->
+    exists g, (length (decode (cl ref)) + 2 <= g)%nat /\
+      UP b ref = to_pres (run idna_raw c (decode (cl ref)) (Some (clone b)) None (Datatypes.S g)
+                            (mk NoScheme (-1) false [] false false false (empty_url (cl ref)))).
   Proof.
     intros Hp. rewrite UrlParse_run. unfold m0.
-    destruct (no_scheme_phase idna_raw c Hrep Hfail (decode (clean ref)) (Some (clone b)) None false false false
-                (empty_url (clean ref)) eq_refl Hp) as [k [Hk Hr]].
+    destruct (no_scheme_phase idna_raw c Hrep Hfail (decode (cl ref)) (Some (clone b)) None false false false
+                (empty_url (cl ref)) eq_refl Hp) as [k [Hk Hr]].
     rewrite (fuel_split _ k) by lia. rewrite Hr.
-    exists (Datatypes.S (fuel_of (length (decode (clean ref))) - k - 2)). split; [unfold fuel_of; lia|].
+    exists (Datatypes.S (fuel_of (length (decode (cl ref))) - k - 2)). split; [unfold fuel_of; lia|].
     reflexivity.
   Qed.
 
   (* L6: an opaque base accepts only fragment references *)
   Theorem opaque_base_rejects_relative b ref :
     u_opaque b = true ->
-    has_scheme_prefix (runes (clean ref)) = false -> starts_with_hash (runes (clean ref)) = false ->
-    UP b ref = PErr (missing_scheme (clean ref)).
+    has_scheme_prefix (runes (cl ref)) = false -> starts_with_hash (runes (cl ref)) = false ->
+    UP b ref = PErr (missing_scheme (cl ref)).
   Proof.
     intros Ho Hp Hh. destruct (no_prefix_run b ref Hp) as [g [_ ->]].
-    assert (H35 : (cp_at (decode (clean ref)) 0 =? 35) = false) by (rewrite cp0_hash; exact Hh).
+    assert (H35 : (cp_at (decode (cl ref)) 0 =? 35) = false) by (rewrite cp0_hash; exact Hh).
     erewrite run_err; [ | eapply step_noscheme_opaque_err; side ]. reflexivity.
   Qed.
 
   (* L7: a reference without a scheme of its own resolves to a URL with the base's scheme *)
   Theorem relative_keeps_scheme b ref u' :
-    has_scheme_prefix (runes (clean ref)) = false -> UP b ref = PUrl u' -> u_scheme u' = u_scheme b.
+    has_scheme_prefix (runes (cl ref)) = false -> UP b ref = PUrl u' -> u_scheme u' = u_scheme b.
   Proof.
     intros Hp H. destruct (no_prefix_run b ref Hp) as [g [Hg E]]. rewrite E in H. clear E.
-    set (inp := decode (clean ref)) in *. set (u0 := empty_url (clean ref)) in *.
+    set (inp := decode (cl ref)) in *. set (u0 := empty_url (cl ref)) in *.
     match type of H with to_pres ?r = _ => destruct r as [u1|u1 e1|u1| |] eqn:Er; try discriminate H end.
     cbn [to_pres] in H. injection H as ->.
     destruct (u_opaque b) eqn:Eo.
@@ -257,7 +262,7 @@ Section Resolve.
   (* L4                                                                                         *)
   (* ---------------------------------------------------------------------------------------- *)
   Theorem empty_ref_exact b ref :
-    clean ref = [] -> u_opaque b = false -> UP b ref = PUrl (resolved_copy [] b).
+    cl ref = [] -> u_opaque b = false -> UP b ref = PUrl (resolved_copy [] b).
   Proof.
     intros Hc Eo. rewrite UrlParse_run, Hc. change (decode []) with (@nil rune).
     rewrite fuel_3. cbn [Nat.add]. unfold m0.
@@ -274,7 +279,7 @@ Section Resolve.
 
   (* the empty reference: the base without its fragment; an opaque base rejects it *)
   Theorem empty_ref b ref :
-    wfb b -> clean ref = [] ->
+    wfb b -> cl ref = [] ->
     (u_opaque b = false ->
        exists u', UP b ref = PUrl u' /\ keeps_base u' b /\ u_query u' = u_query b /\ u_fragment u' = None) /\
     (u_opaque b = true -> UP b ref = PErr (missing_scheme [])).
@@ -288,7 +293,7 @@ Section Resolve.
   (* L5                                                                                         *)
   (* ---------------------------------------------------------------------------------------- *)
   Theorem query_ref_exact b ref q :
-    clean ref = 63 :: q -> u_opaque b = false ->
+    cl ref = 63 :: q -> u_opaque b = false ->
     UP b ref = PUrl (query_result c (set_query (resolved_copy (63 :: q) b) (Some [])) [] (runes q)).
   Proof.
     intros Hc Eo. rewrite UrlParse_run, Hc.
@@ -314,7 +319,7 @@ Section Resolve.
 
   (* a "?q" reference (no '#' among the code points of q) against a non-opaque base, file or not *)
   Theorem query_only_ref b ref q :
-    wfb b -> clean ref = 63 :: q -> ~ In 35 (runes q) -> u_opaque b = false ->
+    wfb b -> cl ref = 63 :: q -> ~ In 35 (runes q) -> u_opaque b = false ->
     exists u', UP b ref = PUrl u' /\ keeps_base u' b /\
                u_query u' = Some (enc_with c (queryset c b) (runes q)) /\ u_fragment u' = None.
   Proof.
@@ -328,7 +333,7 @@ Section Resolve.
 
   (* "?q#f" *)
   Theorem query_fragment_ref b ref q q1 f :
-    wfb b -> clean ref = 63 :: q -> runes q = q1 ++ 35 :: f -> ~ In 35 q1 -> u_opaque b = false ->
+    wfb b -> cl ref = 63 :: q -> runes q = q1 ++ 35 :: f -> ~ In 35 q1 -> u_opaque b = false ->
     exists u', UP b ref = PUrl u' /\ keeps_base u' b /\
                u_query u' = Some (enc_with c (queryset c b) q1) /\
                u_fragment u' = Some (enc_with c (fragset c b) f).
@@ -355,6 +360,12 @@ Print Assumptions query_only_ref.
 Print Assumptions query_fragment_ref.
 Print Assumptions opaque_base_rejects_relative.
 Print Assumptions relative_keeps_scheme.
+
+(* the cleaning does not depend on the acceptInvalidCodepoints flag when the trimmed reference is valid UTF-8
+   (and not at all when the flag is off: clean_sv false = clean by definition) *)
+Lemma clean_sv_valid a s : valid_utf8 (fst (trim_c0space s)) = true -> clean_sv a s = clean s.
+Proof. intros H. unfold clean, clean_sv. rewrite !(remove_tabnl_sv_valid _ _ H). reflexivity. Qed.
+Print Assumptions clean_sv_valid.
 
 (* ------------------------------------------------------------------------------------------ *)
 (* the hypotheses at byte level                                                                 *)
@@ -386,7 +397,7 @@ Print Assumptions runes_no_hash.
 (* L5 with the hypothesis on the bytes of the reference *)
 Corollary query_only_ref_bytes idna_raw c b ref q :
   c_report c = false -> c_fail c = false ->
-  wfb b -> clean ref = 63 :: q -> ~ In 35 q -> u_opaque b = false ->
+  wfb b -> clean_sv (c_acceptInvalid c) ref = 63 :: q -> ~ In 35 q -> u_opaque b = false ->
   exists u', UrlParse idna_raw c b ref = PUrl u' /\ keeps_base u' b /\
              u_query u' = Some (enc_with c (queryset c b) (runes q)) /\ u_fragment u' = None.
 Proof.
@@ -429,6 +440,9 @@ Ltac wfb_ex :=
 
 Example ex_cfg_quiet : c_report default_cfg = false /\ c_fail default_cfg = false.
 Proof. split; reflexivity. Qed.
+(* for the default parser the cleaning of the theorems is Cleaning.clean (used in the instances below) *)
+Example ex_cfg_clean s : clean_sv (c_acceptInvalid default_cfg) s = clean s.
+Proof. reflexivity. Qed.
 Example ex_http_wfb : wfb ex_http.   Proof. wfb_ex. Qed.
 Example ex_opaque_wfb : wfb ex_opaque. Proof. wfb_ex. Qed.
 Example ex_file_wfb : wfb ex_file.   Proof. wfb_ex. Qed.
@@ -488,7 +502,7 @@ Definition bad_opaque : url := set_username ex_opaque [117].
 Definition bad_file : url := set_port ex_file (Some [56]) 8.
 
 Definition fragment_only_ref_unconditional : Prop :=
-  forall idna_raw c b ref f, c_report c = false -> c_fail c = false -> clean ref = 35 :: f ->
+  forall idna_raw c b ref f, c_report c = false -> c_fail c = false -> clean_sv (c_acceptInvalid c) ref = 35 :: f ->
   exists u', UrlParse idna_raw c b ref = PUrl u' /\ keeps_base u' b.
 
 Theorem fragment_only_ref_unconditional_refuted : ~ fragment_only_ref_unconditional.
